@@ -101,6 +101,20 @@ impl SemanticState {
     }
 
     pub fn add_module(&mut self, module: &grammar::Module, path: &ItemPath) -> anyhow::Result<()> {
+        // functions can only be attached to a type that this module defines; anything else
+        // would be dropped without a word
+        for block in &module.impls {
+            let defines_type = module.definitions.iter().any(|d| {
+                d.name == block.name && matches!(d.inner, grammar::ItemDefinitionInner::Type(_))
+            });
+            if !defines_type {
+                anyhow::bail!(
+                    "impl block for `{}` in module `{path}`, which does not define a type of that name",
+                    block.name
+                );
+            }
+        }
+
         let extern_values = module
             .extern_values
             .iter()
